@@ -110,4 +110,32 @@ RequestFromDoc(x) ==
   ELSE LET p == EntRefFromJ(JGet(x, K_principal))  a == EntRefFromJ(JGet(x, K_action))  r == EntRefFromJ(JGet(x, K_resource))
            c == IF JGet(x, K_context) = Missing THEN Ok(EmptyRec) ELSE FromValueJ(JGet(x, K_context)) IN
        IF p.ok /\ a.ok /\ r.ok /\ c.ok /\ c.v.k = "rec" THEN Ok([p |-> p.v, a |-> a.v, r |-> r.v, c |-> c.v]) ELSE PFail
+\* ---------------------------------------------------------------- decision and diagnostic
+\* {"decision": "allow" | "deny", "diagnostic": {"reasons"?: [{"policy", "position"}], "errors"?: [{"policy", "position", "message"}]}}
+\* position = {"filename", "offset", "line", "column"}; a member that is absent is the empty list.  Strings stay code
+\* points and numbers stay limb numbers: the datum is given in the same form.
+PosFromDoc(x) ==
+  IF ~JIsO(x) \/ JGet(x, K_filename) = Missing \/ JGet(x, K_offset) = Missing \/ JGet(x, K_line) = Missing \/ JGet(x, K_column) = Missing
+     \/ ~JIsS(JGet(x, K_filename)) \/ ~JIsN(JGet(x, K_offset)) \/ ~JIsN(JGet(x, K_line)) \/ ~JIsN(JGet(x, K_column)) THEN PFail
+  ELSE Ok([file |-> JGet(x, K_filename).s, off |-> JGet(x, K_offset).n, line |-> JGet(x, K_line).n, col |-> JGet(x, K_column).n])
+DiagItemFromDoc(x, withMsg) ==
+  IF ~JIsO(x) \/ JGet(x, K_policy) = Missing \/ ~JIsS(JGet(x, K_policy)) \/ JGet(x, K_position) = Missing THEN PFail
+  ELSE LET pos == PosFromDoc(JGet(x, K_position)) IN
+       IF ~pos.ok THEN PFail
+       ELSE IF ~withMsg THEN Ok([id |-> JGet(x, K_policy).s, pos |-> pos.v])
+       ELSE IF JGet(x, K_message) = Missing \/ ~JIsS(JGet(x, K_message)) THEN PFail
+       ELSE Ok([id |-> JGet(x, K_policy).s, pos |-> pos.v, msg |-> JGet(x, K_message).s])
+DiagListFromDoc(x, withMsg) ==
+  IF x = Missing THEN Ok(<<>>)
+  ELSE IF ~JIsA(x) THEN PFail
+  ELSE LET rs == [i \in DOMAIN x.a |-> DiagItemFromDoc(x.a[i], withMsg)] IN
+       IF \A i \in DOMAIN rs : rs[i].ok THEN Ok([i \in DOMAIN rs |-> rs[i].v]) ELSE PFail
+DecisionDiagFromDoc(x) ==
+  IF ~JIsO(x) \/ JGet(x, K_decision) = Missing \/ ~JIsS(JGet(x, K_decision)) \/ JGet(x, K_decision).s \notin {K_allow, K_deny}
+     \/ JGet(x, K_diagnostic) = Missing \/ ~JIsO(JGet(x, K_diagnostic)) THEN PFail
+  ELSE LET d == JGet(x, K_diagnostic)
+           rs == DiagListFromDoc(JGet(d, K_reasons), FALSE)
+           es == DiagListFromDoc(JGet(d, K_errors), TRUE) IN
+       IF ~rs.ok \/ ~es.ok THEN PFail
+       ELSE Ok([decision |-> IF JGet(x, K_decision).s = K_allow THEN "allow" ELSE "deny", reasons |-> rs.v, errors |-> es.v])
 =============================================================================
